@@ -1,0 +1,41 @@
+//go:build verif
+
+// Contracts for package trie (C32): which subscriber ids a key collects on its way down the
+// index, and how patterns are added and removed. Light mode: the trie is a recursive structure
+// of maps of pointers, outside the strict subset; these are dataflow facts of single calls.
+
+package trie
+
+// get: the ids of the current node are collected; with key bytes left, the "ignore" branch and
+// the branch of the key's first byte are both followed with the rest of the key.
+//@ func (*Trie).get
+//@   props C32
+//@   light
+//@   assert[empty-key-stops-here] before return#1 : len(key) == 0
+//@   assert[ignored-position-consumes-one-byte] before call get#1 : arg1 == curNode.ignore && curNode.ignore != nil && len(arg2) == len(key) - 1 && sameRegion(arg2, key)
+//@   assert[branch-of-first-byte] before call get#2 : arg1 == curNode.children[key[0]] && arg1 != nil && len(arg2) == len(key) - 1 && sameRegion(arg2, key)
+
+//@ func (*Trie).Get
+//@   props C32
+//@   light
+//@   assert[from-the-root-with-whole-key] before call get : arg1 == t.root && arg2 == key
+
+// fix: the pattern's ignore positions come from its IgnoreBytes; the id is added to (or removed
+// from) the node at the end of the prefix; removing keeps every other id.
+//@ func (*Trie).fix
+//@   props C32
+//@   light
+//@   assert[ignore-mask-of-pattern] before call parseIgnoreBytes : arg0 == m.IgnoreBytes
+//@   assert[id-added-at-prefix-end] before call append#2 : op == set && len(arg1) == 1 && arg1[0] == id && arg0 == curNode.ids
+//@   assert[removal-keeps-other-ids] before call append#3 : op == del && len(arg1) == 1 && arg1[0] == cid && cid != id
+
+
+//@ func (*Trie).DeleteMatch
+//@   props C32
+//@   light
+//@   assert[prunes-after-removal] before call removeEmpty : arg0 == t.root && called(fix#1) && ret(fix#1) == nil
+
+//@ func (*Trie).AddMatch
+//@   props C32
+//@   light
+//@   assert[adds-under-given-id] before call fix : arg0 == t && arg2 == id && arg3 == set
